@@ -6,6 +6,36 @@ mod gen_store;
 mod rawsql;
 mod rng;
 mod store_case;
+#[cfg(feature = "c02")]
+mod c02;
+#[cfg(feature = "c03")]
+mod c03;
+#[cfg(feature = "c05")]
+mod c05;
+#[cfg(feature = "c06")]
+mod c06;
+#[cfg(feature = "c08")]
+mod c08;
+#[cfg(feature = "c09")]
+mod c09;
+#[cfg(feature = "c10")]
+mod c10;
+#[cfg(feature = "c11")]
+mod c11;
+#[cfg(feature = "c12")]
+mod c12;
+#[cfg(feature = "c13")]
+mod c13;
+#[cfg(feature = "c14")]
+mod c14;
+#[cfg(feature = "c15")]
+mod c15;
+#[cfg(feature = "c18")]
+mod c18;
+#[cfg(feature = "c19")]
+mod c19;
+#[cfg(feature = "c20")]
+mod c20;
 
 use rng::Rng;
 use serde_json::{json, Value};
@@ -30,6 +60,36 @@ fn gen(prop: &str, seed: u64, thorough: bool, count: Option<usize>) -> Vec<Value
         "C07" => for i in 0..n(200, 4000) { let mut rr = r.fork(); out.push(gen_store::gen_c07(&mut rr, i as u64, thorough)); },
         "C16" => for i in 0..n(120, 1500) { let mut rr = r.fork(); out.push(gen_store::gen_c16(&mut rr, i as u64, page_size(), thorough)); },
         "C17" => for i in 0..n(300, 4000) { let mut rr = r.fork(); out.push(gen_store::gen_c17(&mut rr, i as u64, thorough)); },
+        #[cfg(feature = "c02")]
+        "C02" => out = c02::gen(&mut r, thorough, count),
+        #[cfg(feature = "c03")]
+        "C03" => out = c03::gen(&mut r, thorough, count),
+        #[cfg(feature = "c05")]
+        "C05" => out = c05::gen(&mut r, thorough, count),
+        #[cfg(feature = "c06")]
+        "C06" => out = c06::gen(&mut r, thorough, count),
+        #[cfg(feature = "c08")]
+        "C08" => out = c08::gen(&mut r, thorough, count),
+        #[cfg(feature = "c09")]
+        "C09" => out = c09::gen(&mut r, thorough, count),
+        #[cfg(feature = "c10")]
+        "C10" => out = c10::gen(&mut r, thorough, count),
+        #[cfg(feature = "c11")]
+        "C11" => out = c11::gen(&mut r, thorough, count),
+        #[cfg(feature = "c12")]
+        "C12" => out = c12::gen(&mut r, thorough, count),
+        #[cfg(feature = "c13")]
+        "C13" => out = c13::gen(&mut r, thorough, count),
+        #[cfg(feature = "c14")]
+        "C14" => out = c14::gen(&mut r, thorough, count),
+        #[cfg(feature = "c15")]
+        "C15" => out = c15::gen(&mut r, thorough, count),
+        #[cfg(feature = "c18")]
+        "C18" => out = c18::gen(&mut r, thorough, count),
+        #[cfg(feature = "c19")]
+        "C19" => out = c19::gen(&mut r, thorough, count),
+        #[cfg(feature = "c20")]
+        "C20" => out = c20::gen(&mut r, thorough, count),
         _ => { eprintln!("unknown property {}", prop); std::process::exit(2); }
     }
     out
@@ -39,6 +99,36 @@ fn exec_case(case: &Value, tag: &str) -> Value {
     let kind = case["kind"].as_str().unwrap_or("");
     let res = std::panic::catch_unwind(std::panic::AssertUnwindSafe(|| match kind {
         "store" => store_case::exec(case, tag),
+        #[cfg(feature = "c02")]
+        k if k == "c02" || k.starts_with("c02:") => c02::exec(case, tag),
+        #[cfg(feature = "c03")]
+        k if k == "c03" || k.starts_with("c03:") => c03::exec(case, tag),
+        #[cfg(feature = "c05")]
+        k if k == "c05" || k.starts_with("c05:") => c05::exec(case, tag),
+        #[cfg(feature = "c06")]
+        k if k == "c06" || k.starts_with("c06:") => c06::exec(case, tag),
+        #[cfg(feature = "c08")]
+        k if k == "c08" || k.starts_with("c08:") => c08::exec(case, tag),
+        #[cfg(feature = "c09")]
+        k if k == "c09" || k.starts_with("c09:") => c09::exec(case, tag),
+        #[cfg(feature = "c10")]
+        k if k == "c10" || k.starts_with("c10:") => c10::exec(case, tag),
+        #[cfg(feature = "c11")]
+        k if k == "c11" || k.starts_with("c11:") => c11::exec(case, tag),
+        #[cfg(feature = "c12")]
+        k if k == "c12" || k.starts_with("c12:") => c12::exec(case, tag),
+        #[cfg(feature = "c13")]
+        k if k == "c13" || k.starts_with("c13:") => c13::exec(case, tag),
+        #[cfg(feature = "c14")]
+        k if k == "c14" || k.starts_with("c14:") => c14::exec(case, tag),
+        #[cfg(feature = "c15")]
+        k if k == "c15" || k.starts_with("c15:") => c15::exec(case, tag),
+        #[cfg(feature = "c18")]
+        k if k == "c18" || k.starts_with("c18:") => c18::exec(case, tag),
+        #[cfg(feature = "c19")]
+        k if k == "c19" || k.starts_with("c19:") => c19::exec(case, tag),
+        #[cfg(feature = "c20")]
+        k if k == "c20" || k.starts_with("c20:") => c20::exec(case, tag),
         _ => json!({"out": {"err": format!("unknown kind {}", kind)}}),
     }));
     let mut v = match res {
